@@ -802,3 +802,32 @@ Lemma ci_normalize_idempotent_example_lemma :
   c16_normalize (c16_normalize ci_example_in) = c16_normalize ci_example_in /\
   c16_normalize ci_example_in <> ci_example_in.
 Proof. split; [vm_compute; reflexivity|]. split; [vm_compute; reflexivity|]. vm_compute. discriminate. Qed.
+
+(* ---------------------------------------------------------------- finding C16-F8: with inline images idempotence is FALSE
+   The side condition of ci_normalize_idempotent_images_partial cannot be dropped.  Witness (confirmed with the real
+   normaliser and with `qpdf --qdf` run twice):
+       BI ID a EI a1 <204549203c34313e20> Tj
+   reads cleanly (one image with data "a ", the word a1, a string, Tj); findEI rejects the image's EI because the word
+   "a1" mixes letters and digits (ei_heuristic_restrictive), finds no other EI and falls back to it: the first pass is
+   right and silent, and re-spells the hexadecimal string as the literal "( EI <41> )".  In its own output findEI again
+   rejects the real EI, but now finds "EI " INSIDE the re-spelt string, rejects it too (")" follows) and falls back to that
+   one: the image swallows "a1 ( ", "<41>" is read as a token of its own and re-spelt "(A)", ")" is a bad token.  The second
+   pass changes the bytes (the string operand " EI <41> " becomes " EI (A) ") and warns. *)
+Definition ci_witness_f8 : list N :=
+  [66;73;32;73;68;32;97;32;69;73;32;97;49;32;60;50;48;52;53;52;57;50;48;51;99;51;52;51;49;51;101;50;48;62;32;84;106].
+
+Lemma ci_normalize_idempotent_images_refuted_lemma :
+  exists c ts, c16_clean c = true /\ c16_sem c = Some ts /\ c16_warnings c = [] /\
+               c16_normalize (c16_normalize c) <> c16_normalize c /\
+               c16_warnings (c16_normalize c) <> [] /\
+               c16_ei_okb (c16_normalize c) = false.
+Proof.
+  exists ci_witness_f8. eexists. split; [vm_compute; reflexivity|]. split; [vm_compute; reflexivity|].
+  split; [vm_compute; reflexivity|]. split; [vm_compute; discriminate|]. split; [vm_compute; discriminate|vm_compute; reflexivity].
+Qed.
+
+(* what the two passes write for the witness *)
+Lemma ci_witness_f8_passes_lemma :
+  c16_normalize ci_witness_f8 = [66;73;32;73;68;32;97;32;69;73;32;97;49;32;40;32;69;73;32;60;52;49;62;32;41;32;84;106] /\
+  c16_normalize (c16_normalize ci_witness_f8) = [66;73;32;73;68;32;97;32;69;73;32;97;49;32;40;32;69;73;32;40;65;41;32;41;32;84;106].
+Proof. split; vm_compute; reflexivity. Qed.
